@@ -154,7 +154,10 @@ def consecutive(tree: DerivationTree, path_1: Path, path_2: Path) -> bool:
         and path != path_2
         and is_before(None, path_1, path)
         and is_before(None, path, path_2)
-        for path, _ in tree.get_subtree(longest_common_prefix).leaves()
+        for path in (
+            longest_common_prefix + rel_path
+            for rel_path, _ in tree.get_subtree(longest_common_prefix).leaves()
+        )
     )
 
 
